@@ -55,28 +55,28 @@ macro_rules! both_modes {
     }};
 }
 
-#[cfg_attr(kani, kani::proof)] #[cfg_attr(kani, kani::unwind(6))]
+#[cfg_attr(kani, kani::proof)] #[cfg_attr(kani, kani::unwind(6))] #[cfg_attr(kani, kani::stub(core::str::from_utf8, crate::env::from_utf8_stub))]
 pub fn c05_two_params() {
     let x = Two::<Vec<u16>, Vec<u8>> { a: vec_upto::<u16, 2>(), n: any(), b: vec_upto::<u8, 2>() };
     both_modes!(x: Two<Vec<u16>, Vec<u8>>, |f| eqs(&f.a, &x.a) && f.n == x.n && eqs(&f.b, &x.b),
                 |e: Two<&[u16], &[u8]>| eqs(e.a, &x.a) && e.n == x.n && eqs(e.b, &x.b));
 }
-#[cfg_attr(kani, kani::proof)] #[cfg_attr(kani, kani::unwind(6))]
+#[cfg_attr(kani, kani::proof)] #[cfg_attr(kani, kani::unwind(6))] #[cfg_attr(kani, kani::stub(core::str::from_utf8, crate::env::from_utf8_stub))]
 pub fn c05_phantom_default() {
     let x = Ph::<NotSer> { a: any(), p: PhantomData };
     both_modes!(x: Ph, |f| f == x, |e: Ph<NotSer>| e == x);
 }
-#[cfg_attr(kani, kani::proof)] #[cfg_attr(kani, kani::unwind(6))]
+#[cfg_attr(kani, kani::proof)] #[cfg_attr(kani, kani::unwind(6))] #[cfg_attr(kani, kani::stub(core::str::from_utf8, crate::env::from_utf8_stub))]
 pub fn c05_tuple_param() {
     let x = TupP::<Vec<u32>>(any(), vec_upto::<u32, 2>());
     both_modes!(x: TupP<Vec<u32>>, |f| f.0 == x.0 && eqs(&f.1, &x.1), |e: TupP<&[u32]>| e.0 == x.0 && eqs(e.1, &x.1));
 }
-#[cfg_attr(kani, kani::proof)] #[cfg_attr(kani, kani::unwind(6))]
+#[cfg_attr(kani, kani::proof)] #[cfg_attr(kani, kani::unwind(6))] #[cfg_attr(kani, kani::stub(core::str::from_utf8, crate::env::from_utf8_stub))]
 pub fn c05_where_const() {
     let x = Wh::<u8, 3> { a: any(), p: PhantomData };
     both_modes!(x: Wh<u8, 3>, |f| f.a[0] == x.a[0] && f.a[1] == x.a[1] && f.a[2] == x.a[2], |e: Wh<u8, 3>| e.a[0] == x.a[0] && e.a[1] == x.a[1] && e.a[2] == x.a[2]);
 }
-#[cfg_attr(kani, kani::proof)] #[cfg_attr(kani, kani::unwind(6))]
+#[cfg_attr(kani, kani::proof)] #[cfg_attr(kani, kani::unwind(6))] #[cfg_attr(kani, kani::stub(core::str::from_utf8, crate::env::from_utf8_stub))]
 pub fn c05_enum_defaults() {
     let t: u8 = any();
     assume(t < 3);
@@ -84,7 +84,7 @@ pub fn c05_enum_defaults() {
     both_modes!(x: Ge, |f| match (&f, &x) { (Ge::N, Ge::N) => true, (Ge::T(b1, a1), Ge::T(b2, a2)) => b1 == b2 && eqs(a1, a2), (Ge::S { b: b1 }, Ge::S { b: b2 }) => b1 == b2, _ => false },
                 |e: Ge<&[u8], u8>| match (&e, &x) { (Ge::N, Ge::N) => true, (Ge::T(b1, a1), Ge::T(b2, a2)) => b1 == b2 && eqs(a1, a2), (Ge::S { b: b1 }, Ge::S { b: b2 }) => b1 == b2, _ => false });
 }
-#[cfg_attr(kani, kani::proof)] #[cfg_attr(kani, kani::unwind(6))]
+#[cfg_attr(kani, kani::proof)] #[cfg_attr(kani, kani::unwind(6))] #[cfg_attr(kani, kani::stub(core::str::from_utf8, crate::env::from_utf8_stub))]
 pub fn c05_nested() {
     let x = Outer::<String> { inner: TupP(any(), any()), a: sym::string_w(2, 0) };
     both_modes!(x: Outer<String>, |f| f.inner == x.inner && crate::cases::eqstr(&f.a, &x.a), |e: Outer<&str>| e.inner == x.inner && crate::cases::eqstr(e.a, &x.a));
